@@ -32,12 +32,15 @@ def _arr(kind, n):
     return np.array([1.0, 2.0, 4.0, 3.0, 5.0, 2.0, 7.0, 1.0, 3.0, 2.0][:n])
 
 
-def _obj(kind, delta, rel):
+def _obj(kind, delta, rel, vdt="f"):
     n = N + delta
     a = _arr(kind, n)
+    if kind == "vals" and vdt in ("M", "Mtz"):
+        a = np.array([np.datetime64("2024-03-01T00:00:00") + np.timedelta64(int(x), "h") for x in a], dtype="datetime64[ns]")
     if rel == "none":
         return a
-    return pd.Series(a, index=_index(rel, n))
+    s_ = pd.Series(a, index=_index(rel, n))
+    return s_.dt.tz_localize("UTC").dt.tz_convert("Europe/Dublin") if (kind == "vals" and vdt == "Mtz") else s_
 
 
 def _ops():
@@ -60,6 +63,10 @@ def _ops():
     ops["diff"] = (("values", "mask"), lambda gb, A: gb.diff(A["values"], window=1, mask=A.get("mask")))
     ops["ema"] = (("values", "mask"), lambda gb, A: gb.ema(A["values"], alpha=0.5, mask=A.get("mask")))
     ops["ema_timed"] = (("values", "times", "mask"), lambda gb, A: gb.ema(A["values"], halflife="1s", times=A["times"], mask=A.get("mask")))
+    # the group-sorted output layout is a separate path through the index handling
+    ops["ema_bygroup"] = (("values", "mask"), lambda gb, A: gb.ema(A["values"], alpha=0.5, mask=A.get("mask"), index_by_groups=True))
+    ops["ema_timed_bygroup"] = (("values", "times", "mask"), lambda gb, A: gb.ema(A["values"], halflife="1s", times=A["times"], mask=A.get("mask"), index_by_groups=True))
+    ops["rolling_sum_bygroup"] = (("values", "mask"), lambda gb, A: gb.rolling_sum(A["values"], window=2, min_periods=1, mask=A.get("mask"), index_by_groups=True))
     for f in ("head", "tail", "nth"):
         ops[f] = (("values",), lambda gb, A, f=f: getattr(gb, f)(A["values"], 1, keep_input_index=True))
         ops[f + "_nokeep"] = (("values",), lambda gb, A, f=f: getattr(gb, f)(A["values"], 1))
@@ -71,6 +78,7 @@ def _ops():
 
 
 OPS = _ops()
+TEMPORAL_OK = {"count", "min", "max", "first", "last", "cummin", "cummax", "shift", "diff", "head", "tail", "nth", "head_nokeep", "tail_nokeep", "nth_nokeep"}
 KIND = {"values": "vals", "values_el": "vals", "values2": "vals", "mask": "mask", "subset_mask": "mask", "times": "times", "ints": "ints"}
 
 
@@ -84,6 +92,14 @@ def all_cases():
                     if arg == "ints" and rel != "none":
                         continue        # group_nearby_members takes plain arrays
                     cases.append(dict(op=name, arg=arg, delta=delta, idxrel=rel))
+                    # the other arguments as plain arrays (only the keys and the perturbed argument carry an index)
+                    if rel != "none" and arg != "ints":
+                        cases.append(dict(op=name, arg=arg, delta=delta, idxrel=rel, others="numpy"))
+                    # datetime values (tz-naive / tz-aware): they are converted before the kernels see them
+                    if KIND[arg] == "vals" and name in TEMPORAL_OK:
+                        for vdt in ("M", "Mtz"):
+                            if not (vdt == "Mtz" and rel == "none"):
+                                cases.append(dict(op=name, arg=arg, delta=delta, idxrel=rel, vdt=vdt))
     # facade: the frame defines keys and values together; a foreign mask / times argument can still be misaligned
     for meth in ("sum", "mean", "min", "max", "count", "size", "std", "var", "first", "last"):
         for delta in (-2, -1, 0, 1, 2):
@@ -95,7 +111,8 @@ def all_cases():
 def run_case(case):
     from groupby_lib import GroupBy
     name, arg, delta, rel = case["op"], case["arg"], case["delta"], case["idxrel"]
-    tr = {"op": name, "arg": arg, "delta": delta + 10, "idxrel": rel}
+    tr = {"op": name, "arg": arg, "delta": delta + 10, "idxrel": rel, "cfg": {"others": case.get("others", "series"), "vdt": case.get("vdt", "f")}}
+    vdt = case.get("vdt", "f")
     keys = pd.Series(np.array(KEYS, dtype=float), index=INDEX, name="k")
     try:
         if name.startswith("facade_"):
@@ -112,8 +129,8 @@ def run_case(case):
             for a in args:
                 if a in ("mask", "values_el"):
                     continue            # optional arguments are passed only when they are the perturbed one
-                A[a] = _obj(KIND[a], 0, "identical" if a != "ints" else "none")
-            A[arg] = _obj(KIND[arg], delta, rel)
+                A[a] = _obj(KIND[a], 0, "identical" if (a != "ints" and case.get("others") != "numpy") else "none", vdt)
+            A[arg] = _obj(KIND[arg], delta, rel, vdt)
             gb = call(GroupBy, keys)
             out = call(fn, gb, A)
         # force lazy containers
